@@ -368,6 +368,26 @@ func genC07(g *G) {
 			c.Req = req("check", encSources(fs), wire)
 		}
 		g.Add(c)
+		// the same bundle once more: WHICH error is reported (kind + payload), model vs CheckDataRefs
+		if err == nil {
+			g.Add(Case{Req: req("checkerr", encSources(fs), wire), NT: c.NT, Class: "checkerr:" + class, Note: note})
+		}
+	}
+	// hand cases for the errors the injectors do not reach: Registry.Add's other errors, a {@param} that is
+	// not leading, several independent errors in one bundle (the FIRST template in registry order is reported)
+	for i, h := range [][]srcFile{
+		{{"a.soy", "{namespace n}\n/** */\n{template .t}\nx\n{/template}\n"}, {"b.soy", "{namespace n}\n/** */\n{template .t}\ny\n{/template}\n"}},
+		{{"a.soy", "/** */\n{template .t}\nx\n{/template}\n"}},
+		{{"a.soy", "/** */\n"}},
+		{{"a.soy", "{namespace n}\n/** */\n{template .t}\nx{@param a: string}{$a}\n{/template}\n"}},
+		{{"a.soy", "{namespace n}\n/** @param a */\n{template .t}\n{@param b: string}\n{$a}{$b}\n{/template}\n"}},
+		{{"a.soy", "{namespace n}\n/** @param a\n @param b */\n{template .t}\nx\n{/template}\n/** */\n{template .u}\n{$zz}\n{/template}\n"}},
+		{{"a.soy", "{namespace n}\n/** */\n{template .t}\n{let $p: 1/}{let $q: 2/}{if true}{let $r: 3/}{/if}\n{/template}\n"}},
+		{{"a.soy", "{namespace n}\n/** @param a */\n{template .t}\n{foreach $x in $a}{let $y: $x/}{$zz}{/foreach}\n{/template}\n"}},
+		{{"a.soy", "{namespace n}\n/** @param a\n @param b\n @param? c */\n{template .t}\n{$a}{$b}{$c}\n{/template}\n/** */\n{template .u}\n{call .t}{param c: 1/}{/call}{call .t}{param zz: 1/}{param yy: 1/}{/call}\n{/template}\n"}},
+		{{"b.soy", "{namespace m}\n/** */\n{template .u}\n{call n.t/}{$zz}\n{/template}\n"}, {"a.soy", "{namespace n}\n/** @param a */\n{template .t}\nx\n{/template}\n"}},
+	} {
+		add(h, "hand", "hand#"+itoa(i))
 	}
 	for i := 0; i < n; i++ {
 		b := bg.bundle()
